@@ -229,6 +229,7 @@ let run_case op t =
       let k = kind_of_code (next_int t) in
       let pr r = let c = string_of_int (code_of_kind r) in join [ "ok"; c; c; c ] in
       (pr (tuple_element_kind_m k), pr (tuple_element_kind_spec k))
+  | "xfer" -> (join ("ok" :: List.map str_of_z xfer_m), join ("ok" :: List.map str_of_z xfer_spec))
   | "pctor" ->
       let k = kind_of_code (next_int t) in
       let a = cat_of_code (next_int t) in
@@ -393,7 +394,10 @@ let run_case op t =
   | "ptraits" ->
       let e1 = elem_of_code (next_int t) in
       let e2 = elem_of_code (next_int t) in
-      (join ("ok" :: List.map b2s (pair_traits_m e1 e2)), join ("ok" :: List.map b2s (pair_traits_spec e1 e2)))
+      let co = (match (e1, e2) with ECopyOnly, _ | _, ECopyOnly -> true | _ -> false) in
+      let sw b = if co then "x" else b2s b in
+      (join (("ok" :: List.map b2s (pair_traits_m e1 e2)) @ [ sw (pair_swappable_m e1 e2) ]),
+       join (("ok" :: List.map b2s (pair_traits_spec e1 e2)) @ [ sw (pair_swappable_spec e1 e2) ]))
   | "ttraits" ->
       let n = next_int t in
       let es = List.init n (fun _ -> elem_of_code (next_int t)) in
@@ -410,6 +414,9 @@ let run_case op t =
                str_of_z a'; str_of_z a'; str_of_z x; str_of_z y ] in
       (pr make_pair_member_m, pr make_pair_member_spec)
   | "sbind" -> (join [ "ok"; b2s tuple_structured_binding_m ], join [ "ok"; b2s tuple_structured_binding_spec ])
+  | "tupconv" ->
+      let six b = join ("ok" :: List.init 6 (fun _ -> b2s b)) in
+      (six tuple_converting_ctor_m, six tuple_converting_ctor_spec)
   | "getbytype" ->
       ( join [ "ok"; b2s (get_by_type_m true); b2s (get_by_type_m false) ],
         join [ "ok"; b2s (get_by_type_spec true); b2s (get_by_type_spec false) ] )
@@ -429,6 +436,10 @@ let run_case op t =
       let a = next_z t in let b = next_z t in
       let pr ((s, a'), b') = join [ "ok"; "1"; "1"; "1"; "1"; "1"; str_of_z s; str_of_z a'; str_of_z b' ] in
       (pr (refwrap_ops_m a b), pr (refwrap_ops_spec a b))
+  | "frefptr" ->
+      let v = next_z t in
+      let pr (vals, bits) = join (("ok" :: List.map str_of_z vals) @ List.map b2s bits) in
+      (pr (fref_ptr_m v), pr (fref_ptr_spec v))
   | "frefops" ->
       let v = next_z t in
       (join ("ok" :: List.map str_of_z (fref_ops_m v)), join ("ok" :: List.map str_of_z (fref_ops_spec v)))
